@@ -158,7 +158,8 @@ StepPub(s, e) ==
         launch == isev /\ byengine /\ e.stack # <<>> /\ top[2] >= 0 /\ <<top[1], top[2]>> \notin TrigPairs(s)
         relaunch == launch /\ <<top[1], top[2]>> \in s.launched
         (* a publish that leaves a fan-out the trigger was inside of: the join (or its failure/retry) *)
-        popped == IF isev /\ byengine /\ e.exec # "" THEN TrigIDs(s) \ StackIDs(e.stack) ELSE {}
+        (* (an event of ANOTHER execution published from inside a fan-out is a child launch, not a join) *)
+        popped == IF isev /\ byengine /\ e.exec # "" /\ e.exec \in OwnersOf(s, s.fr.trig) THEN TrigIDs(s) \ StackIDs(e.stack) ELSE {}
         isretry == e.retry > 0
         joinpub == popped # {} /\ ~isretry /\ s.fr.failedNow = {}
         joinok == \A id \in popped :
